@@ -77,6 +77,11 @@ def lines_of(entries, level, out, rng):
                     out.append(("blank", "", "", 0))
                     out.append(("text", "", "Second paragraph, more deeply indented:", level + 2))
                     out.append(("text", "", "example line", level + 2.5))
+            if rng.random() < 0.25:  # an include right after the entry (all four spellings), with or without a blank line
+                if rng.random() < 0.5:
+                    out.append(("blank", "", "", 0))
+                kw = rng.choice(["source", "rsource", "orsource", "osource"])
+                out.append(("source", "", '%s "%s"' % (kw, "Kconfig.none" if kw == "osource" and rng.random() < 0.5 else "Kconfig.inc"), level))
             out.append(("blank", "", "", 0))
         elif k == "menu":
             out.append(("menu", "", 'menu "%s"' % e.get("title", "menu"), level))
@@ -202,14 +207,20 @@ def parse_shape(run, path, wrapper_dir):
     """Both parsers' view of the checked file (parser 2 needs a mainmenu: wrap it)."""
     w = os.path.join(wrapper_dir, "Kconfig")
     kc.write_text(w, 'mainmenu "w"\n\nsource "%s"\n' % path)
+    inc = os.path.join(wrapper_dir, "Kconfig.inc")  # what the generated include lines name
+    if not os.path.exists(inc):
+        kc.write_text(inc, 'config %sINCLUDED\n    bool "included"\n' % PFX)
     out = []
     for v in (1, 2):
         try:
+            os.environ["srctree"] = wrapper_dir
             k = kc.Kconfig(w, parser_version=v)
             out.append([no_help(absx.tree_shape(k)), absx.tree_defs(k)])  # help text is not configuration
             kc.reset_report(k)
         except Exception as e:
             out.append(["%s: %s" % (type(e).__name__, str(e)[:150])])
+        finally:
+            os.environ.pop("srctree", None)
     return out
 
 
